@@ -52,6 +52,9 @@ def jobs(tier, seed):
             combos = keep + rest[:2]
         for dt, lay in combos:
             out.append({'name': '%s-%s-%s-numpy' % (f, dt, lay), 'fn': f, 'dtype': dt, 'layout': lay, 'backend': 'numpy'})
+        if f in ('slope', 'curvature', 'proximity', 'a_star_search'):
+            # no 'res' attribute: the cell size is derived from the coordinates - and must not be written back into the caller's attrs
+            out.append({'name': '%s-float64-C-numpy-nores' % f, 'fn': f, 'dtype': 'float64', 'layout': 'C', 'backend': 'numpy', 'nores': True})
         if f in DASK_OK:
             for dt in (('float64', 'int32') if f not in GENERATORS else ('float64', 'float32')):
                 for chunks in ('one', 'split'):
@@ -82,7 +85,7 @@ def _layout(arr, lay):
     return a
 
 
-def _mk(ctx, name, shape, dt, lay, backend, chunks, forky, nsym=2):
+def _mk(ctx, name, shape, dt, lay, backend, chunks, forky, nsym=2, with_inf=False, nores=False):
     h, w = shape
     symcells = ((0, 1), (h - 1, w - 1))[:nsym]
     if dt.startswith('float'):
@@ -100,6 +103,8 @@ def _mk(ctx, name, shape, dt, lay, backend, chunks, forky, nsym=2):
                 base[y, x] = ctx.integer('%s_%d' % (name, k), rng[0], rng[1])
         else:
             base = ctx.array(name, (h, w), dt, lo=rng[0], hi=rng[1])
+    if with_inf and dt.startswith('float'):
+        base[h - 1, 0] = float('inf')      # the classifiers treat +-inf cells specially (they must do so on a copy)
     data = _layout(base, lay)
     ys = coords_affine(h, float(h + 1), -1.0)
     xs = coords_affine(w, 2.0, 1.0)
@@ -107,8 +112,10 @@ def _mk(ctx, name, shape, dt, lay, backend, chunks, forky, nsym=2):
     if backend == 'dask':
         ch = ((h,), (w,)) if chunks == 'one' else ((1, h - 1), (2, w - 2))
         d = symda.Array(data, ch)
-    agg = symxr.DataArray(d, dims=('y', 'x'), coords={'y': ys, 'x': xs, 'band': symnp.asarray(7)}, attrs={'res': (1.0, 1.0), 'crs': 'EPSG:4326', 'nested': {'a': [1, 2]}},
-                          name=name)
+    attrs = {'res': (1.0, 1.0), 'crs': 'EPSG:4326', 'nested': {'a': [1, 2]}}
+    if nores:
+        del attrs['res']
+    agg = symxr.DataArray(d, dims=('y', 'x'), coords={'y': ys, 'x': xs, 'band': symnp.asarray(7)}, attrs=attrs, name=name)
     return agg, data
 
 
@@ -116,6 +123,16 @@ def _snapshot(agg, data):
     return {'cells': list(data._buf), 'idx': data._idx.copy(), 'coords': {k: list(c.data.flat_values()) for k, c in agg.coords.items()},
             'attrs': repr(sorted(agg.attrs.items())), 'dims': tuple(agg.dims), 'name': agg.name, 'dtype': str(data.dtype), 'shape': tuple(data.shape),
             'wr': data._wr}
+
+
+KERNELS = {}
+
+
+def _fresh_kernels():
+    """the kernel arguments are inputs too: float64 arrays as circle_kernel / annulus_kernel return them"""
+    KERNELS['apply'] = symnp.asarray([[0, 1, 0], [1, 1, 1], [0, 1, 0]], 'float64').copy()
+    KERNELS['hotspots'] = symnp.ones((3, 3), 'float64').copy()
+    KERNELS['convolution_2d'] = symnp.asarray([[0, 1, 0], [1, 2, 1], [0, 1, 0]], 'float64').copy()
 
 
 def _call(ctx, fn, aggs):
@@ -127,11 +144,11 @@ def _call(ctx, fn, aggs):
     if fn == 'mean1':
         return ctx.call('focal:mean', a, 1)
     if fn == 'apply':
-        return ctx.call('focal:apply', a, symnp.asarray([[0, 1, 0], [1, 1, 1], [0, 1, 0]], 'float64'))
+        return ctx.call('focal:apply', a, KERNELS['apply'])
     if fn == 'hotspots':
-        return ctx.call('focal:hotspots', a, symnp.ones((3, 3), 'float64'))
+        return ctx.call('focal:hotspots', a, KERNELS['hotspots'])
     if fn == 'convolution_2d':
-        return ctx.call('convolution:convolution_2d', a, symnp.asarray([[0, 1, 0], [1, 2, 1], [0, 1, 0]], 'float64'))
+        return ctx.call('convolution:convolution_2d', a, KERNELS['convolution_2d'])
     if fn == 'binary':
         return ctx.call('classify:binary', a, [3, 5])
     if fn == 'reclassify':
@@ -188,7 +205,8 @@ def body(ctx, job):
     for i in range(ninp):
         # zonal functions: zones must be integer-like for crop / small alphabets
         idt = dt
-        agg, data = _mk(ctx, 'in%d' % i, shape, idt, lay, backend, job.get('chunks'), forky, nsym=1 if fn in ('crosstab', 'crosstab3d', 'natural_breaks', 'stats') else 2)
+        agg, data = _mk(ctx, 'in%d' % i, shape, idt, lay, backend, job.get('chunks'), forky, nsym=1 if fn in ('crosstab', 'crosstab3d', 'natural_breaks', 'stats') else 2,
+                        with_inf=fn in ('equal_interval', 'quantile', 'natural_breaks', 'binary', 'reclassify'), nores=bool(job.get('nores')))
         if fn == 'crosstab3d' and i == 1:
             # values: a (layer, y, x) cube in one C-ordered buffer, category dimension first
             h_, w_ = shape
@@ -199,7 +217,12 @@ def body(ctx, job):
                                   attrs=dict(agg.attrs), name='in1')
         inputs.append((agg, data))
     snaps = [_snapshot(a, d) for a, d in inputs]
+    _fresh_kernels()
+    ksnap = {k: list(v.flat_values()) for k, v in KERNELS.items()}
     exc = ctx.raises(_call, ctx, fn, [a for a, _ in inputs])
+    if fn in KERNELS:
+        ctx.check('kernel-argument-unchanged', [_plain_num(v) for v in KERNELS[fn].flat_values()] == [_plain_num(v) for v in ksnap[fn]],
+                  info={'fn': fn, 'before': [_plain_num(v) for v in ksnap[fn]], 'after': [_plain_num(v) for v in KERNELS[fn].flat_values()]})
     if exc == 'ZeroDivisionError' and fn == 'hotspots':
         raise Skip()      # constant raster: documented error of the numpy path
     if exc is not None:
@@ -256,6 +279,10 @@ def body(ctx, job):
             unchanged('after-writing-to-the-result')
         if res.attrs is a0.attrs and fn == 'hotspots':
             ctx.check('attrs-not-shared-when-modified', False)
+
+
+def _plain_num(v):
+    return sc.as_const(v) if sc.is_sym(v) else float(v)
 
 
 def _data_shape(agg):
